@@ -21,6 +21,7 @@ from kv.props import c06_model as m
 
 FIN = m.FIN
 HEADER = fw.STD_HEADER + 'From KV Require Import Base.Dicts Model.Finalizers Model.FinalizersReplay.\n'
+MODEL = 'Model/FinalizersReplay.v'
 VARIANTS = ['plain', 'plain', 'nofilter', 'shared', 'optional']
 
 
@@ -444,7 +445,7 @@ def corpus_scenarios() -> list[dict]:
     out = []
     d = fw.ROOT / 'corpus' / 'C06'
     for p in sorted(d.glob('fn_*.json')):
-        out.append(json.loads(p.read_text()))
+        out.append(json.loads(p.read_text())['fn_scenario'])     # (not 'scenario'/'actions': those are history-level files)
     return out
 
 
